@@ -497,6 +497,19 @@ fn files(out: &mut Out, rng: &mut Rng, thorough: bool, only: Option<&str>) {
                 unsafe { libc::close(rfd) };
                 emit_data(out, "pipe", o);
             }
+            // names that are not valid UTF-8: an existing file and a missing one
+            {
+                use std::os::unix::ffi::OsStrExt;
+                let mut raw = format!("{}/nonutf8-{}-", dir, std::process::id()).into_bytes();
+                raw.extend_from_slice(b"\xff\xfe\xc3.bin");
+                let odd = std::path::PathBuf::from(std::ffi::OsStr::from_bytes(&raw));
+                if std::fs::write(&odd, &data).is_ok() {
+                    emit_data(out, "nonutf8", v.hash_file(&odd));
+                    let _ = std::fs::remove_file(&odd);
+                }
+                let o = v.hash_file(&odd);
+                out.emit(Ev::new("file_err").str("v", v.name()).str("why", "missing").raw("r", &outcome_json(&o)).meas(o.a, &o.p));
+            }
             if std::os::unix::fs::symlink(format!("{}/nowhere-{}", dir, std::process::id()), &link).is_ok() {
                 let o = v.hash_file(&link);
                 let _ = std::fs::remove_file(&link);
